@@ -43,6 +43,55 @@ fn main() {
             }
         }
     }
+    // the variant identifiers of every generated `pub enum` (ENUMERATED and CHOICE), in the order of the text
+    let mut variants: Vec<(String, String)> = Vec::new();
+    for file in &mods {
+        let m = file.trim_end_matches(".rs").to_string();
+        let src = std::fs::read_to_string(out.join(file)).unwrap();
+        let mut current: Option<(String, Vec<String>)> = None;
+        for line in src.lines() {
+            let l = line.trim_start();
+            if let Some((name, list)) = &mut current {
+                if line.starts_with('}') {
+                    variants.push((format!("{m}::{name}"), list.join(",")));
+                    current = None;
+                } else if !l.starts_with("//") {
+                    // `#[asn(..)] Name(Type),` / `#[default] Name,`: the identifier behind the attributes
+                    let mut l = l;
+                    while l.starts_with("#[") {
+                        let mut depth = 0usize;
+                        let mut end = l.len();
+                        for (i, c) in l.char_indices() {
+                            match c {
+                                '[' => depth += 1,
+                                ']' => {
+                                    depth -= 1;
+                                    if depth == 0 {
+                                        end = i + 1;
+                                        break;
+                                    }
+                                }
+                                _ => {}
+                            }
+                        }
+                        l = l[end..].trim_start();
+                    }
+                    let id: String = l.chars().take_while(|c| c.is_alphanumeric() || *c == '_').collect();
+                    if !id.is_empty() {
+                        list.push(id);
+                    }
+                }
+            } else if let Some(rest) = line.strip_prefix("pub enum ") {
+                let name: String = rest.chars().take_while(|c| c.is_alphanumeric() || *c == '_').collect();
+                current = Some((name, Vec::new()));
+            }
+        }
+    }
+    writeln!(reg, "pub const ZOO_ENUM_VARIANTS: &[(&str, &str)] = &[").unwrap();
+    for (n, v) in &variants {
+        writeln!(reg, "    (\"{n}\", \"{v}\"),").unwrap();
+    }
+    writeln!(reg, "];").unwrap();
     names.sort();
     names.dedup();
     writeln!(reg, "pub const ZOO_TYPES: &[&str] = &[").unwrap();
